@@ -185,7 +185,7 @@ def run(out, tier):
             meta.append((base_svgs[b], svg, v["kind"], v["pos"], base_res[b][1], txt))
         bpath = os.path.join(wd, "base_outcomes.ndjson")
         common.write_ndjson(bpath, [b[0] for b in base_res])
-        verdicts, st, tr = common.validate_traces("TraceNoise", "TraceNoise.cfg", recs, wd, chunk=20000,
+        verdicts, st, tr = common.validate_traces("TraceNoise", "TraceNoise.cfg", recs, wd, chunk=5000,
                                                   env={"BASES": bpath})
         cov = out.coverage
         cov["states"] += st
